@@ -219,10 +219,78 @@ def psum_axioms(sev):
     # extensionality on a prefix
     ax.append(forall([f, g, n], z3.Implies(forall([i], z3.Implies(z3.And(0 <= i, i < n), z3.Select(f, i) == z3.Select(g, i))),
                                              ps(f, n) == ps(g, n)), patterns=[z3.MultiPattern(ps(f, n), ps(g, n))]))
+    # equal from k on: the difference of the sums is the difference of the prefixes
+    k = z3.Int('k!ps')
+    ax.append(z3.ForAll([f, g, n, k], z3.Implies(z3.And(0 <= k, k <= n, z3.ForAll([i], z3.Implies(z3.And(k <= i, i < n), z3.Select(f, i) == z3.Select(g, i)))),
+                                                ps(f, n) - ps(g, n) == ps(f, k) - ps(g, k)),
+                        patterns=[z3.MultiPattern(ps(f, n), ps(g, n), ps(f, k), ps(g, k))]))
+    # the same two lemmas for real-valued sums
+    rs = rpsum_fn(sev)
+    RA = z3.ArraySort(m.Int, m.Real)
+    rf, rg = z3.Consts('rf!ps rg!ps', RA)
+    ax.append(z3.ForAll([rf, rg, n], z3.Implies(z3.ForAll([i], z3.Implies(z3.And(0 <= i, i < n), z3.Select(rf, i) == z3.Select(rg, i))),
+                                               rs(rf, n) == rs(rg, n)), patterns=[z3.MultiPattern(rs(rf, n), rs(rg, n))]))
     # non-negative terms give a non-negative, monotone sum
     ax.append(forall([f, n], z3.Implies(forall([i], z3.Implies(z3.And(0 <= i, i < n), z3.Select(f, i) >= 0)), ps(f, n) >= 0),
                         patterns=[ps(f, n)]))
     return ax
+
+
+def rpsum_fn(sev):
+    m = sev.m
+    return m.uf('rpsum', z3.ArraySort(m.Int, m.Real), m.Int, m.Real)
+
+
+def rpsum(sev, env, f, n):
+    ps = rpsum_fn(sev)
+    t = ps(f, n)
+    st = env.st
+    u1 = z3.Implies(n <= 0, t == 0)
+    u2 = z3.Implies(n > 0, t == ps(f, n - 1) + z3.Select(f, n - 1))
+    if env.bound:
+        st.assume(forall(list(env.bound), z3.And(u1, u2), patterns=[t]))
+    else:
+        st.assume(u1)
+        st.assume(u2)
+    sev.ex.uses_psum = True
+    return t
+
+
+def _rat_array(sev, env, s):
+    m = sev.m
+    ex = sev.ex
+    E = m.elem(s.t)
+    arr, off, ln = s.leaves
+    refs = z3.Select(env.st.heap(ex.aname(E, '', 'Int')), arr)
+    hr = env.st.heap('H|bigrat||Real')
+    i = z3.Int('i!sr')
+    return refs, hr, i, off
+
+
+def sf_sumRats(sev, env, args):
+    """sumRats(s, n): sum of rat(s[i]) for i < n (s: []*big.Rat)"""
+    s, n = args
+    refs, hr, i, off = _rat_array(sev, env, s)
+    return rpsum(sev, env, z3.Lambda([i], z3.Select(hr, z3.Select(refs, add0(off, i)))), sev.term(n))
+
+
+def sf_sumRatsTimes(sev, env, args):
+    """sumRatsTimes(s, n, c): sum of rat(s[i]) * c for i < n; equals c * sumRats(s, n) (distributivity lemma)"""
+    s, n, c = args
+    refs, hr, i, off = _rat_array(sev, env, s)
+    ct = sev.term(c)
+    if z3.is_int(ct):
+        ct = z3.ToReal(ct)
+    nt = sev.term(n)
+    t = rpsum(sev, env, z3.Lambda([i], z3.Select(hr, z3.Select(refs, add0(off, i))) * ct), nt)
+    plain = rpsum(sev, env, z3.Lambda([i], z3.Select(hr, z3.Select(refs, add0(off, i)))), nt)
+    lem = t == ct * plain
+    if env.bound:
+        env.st.assume(forall(list(env.bound), lem))
+    else:
+        env.st.assume(lem)
+    sev.ex.trusted.add('lemma: multiplication distributes over a finite sum (sumRatsTimes)')
+    return t
 
 
 def _senders_term_array(sev, env, s, name, monleaf='Monetary', nameleaf='Name'):
@@ -297,4 +365,6 @@ BUILTINS = {
     'sumMonNot': sf_sumMonNot,
     'sumVals': sf_sumVals,
     'sumAmounts': sf_sumAmounts,
+    'sumRats': sf_sumRats,
+    'sumRatsTimes': sf_sumRatsTimes,
 }
